@@ -56,6 +56,13 @@ def spawn(job, hashseed):
     env['PYTHONHASHSEED'] = str(hashseed)
     env['PYTHONDONTWRITEBYTECODE'] = '1'
     env.pop('PYTHONPATH', None)
+    env.pop('LD_PRELOAD', None)
+    if job.get('prop') == 'C13':
+        # crash points inside the sqlite C library need the native shim preloaded into the worker
+        from sim import native
+        so = native.build()
+        if so:
+            env['LD_PRELOAD'] = so
     p = subprocess.Popen([PYTHON, '-B', WORKER], stdin=subprocess.PIPE,
                          stdout=subprocess.PIPE, stderr=subprocess.PIPE,
                          env=env, cwd='/')
